@@ -31,7 +31,8 @@ def _enc():
 
 
 # received signals: name -> (first time, number of samples); dt = 1
-GRIDS = {'A': (0.0, 3), 'B': (1.0, 3), 'C': (6.0, 3), 'D': (-1.0, 6), 'H': (1.5, 2)}
+GRIDS = {'A': (0.0, 3), 'B': (1.0, 3), 'C': (6.0, 3), 'D': (-1.0, 6), 'H': (1.5, 2),
+         'E': (2.0, 3), 'F': (-2.0, 3)}     # E, F abut A in exactly one sample
 WINDOWS = {'w1': (0.0, 4), 'w2': (2.0, 3), 'w3': (20.0, 2), 'w4': (0.5, 3)}
 
 
@@ -303,13 +304,16 @@ def _cases(tier):
             out.append({'kind': 'antenna', 'noisy': False, 'seq': s})
         pick = [['RA', 'Qall', 'RB'], ['RA', 'Qw', 'RB'], ['RA', 'RB', 'C'], ['RA', 'CN', 'RB'],
                 ['RD', 'Qw', 'RA'], ['RA', 'Qfullw4', 'RH'], ['RC', 'Qdurw2', 'RA'],
-                ['RA', 'Qw', 'C', 'RB'], ['RA', 'RB', 'Qw', 'CN'], ['RB', 'Qall', 'RA', 'Qw']]
+                ['RA', 'Qw', 'C', 'RB'], ['RA', 'RB', 'Qw', 'CN'], ['RB', 'Qall', 'RA', 'Qw'],
+                ['RA', 'RE'], ['RE', 'RA', 'Qw'], ['RA', 'RF', 'Qall'], ['RF', 'RE', 'RA']]
+        for s in pick[-4:]:
+            out.append({'kind': 'antenna', 'noisy': False, 'seq': s})
         for s in pick:
             out.append({'kind': 'antenna', 'noisy': True, 'seq': s})
             out.append({'kind': 'system', 'noisy': False, 'seq': s, 'lead': 0.0})
             out.append({'kind': 'system', 'noisy': True, 'seq': s, 'lead': 2.0})
     else:
-        allops = R_OPS + ['RD', 'RH'] + Q_OPS + ['Qfullw3', 'Qfullw4'] + C_OPS
+        allops = R_OPS + ['RD', 'RH', 'RE', 'RF'] + Q_OPS + ['Qfullw3', 'Qfullw4'] + C_OPS
         for s in _seqs(R_OPS + Q_OPS + C_OPS, 3):
             if _useful(s):
                 for kind, noisy, lead in (('antenna', False, 0.0), ('antenna', True, 0.0),
